@@ -2,7 +2,7 @@
 import ast
 import re
 
-from ..srcmodel import AnalysisError, Unknown, Regex, unparse
+from ..srcmodel import AnalysisError, Unknown, Regex, unparse, _pinned_anchors
 from .. import facts as F
 from .. import pipeline as P
 from ..microeval import eval_term, run_function
@@ -103,9 +103,15 @@ def data_calls(t):
             stack.extend(g[1] for g in x[3])
         else:
             stack.extend(F.children_data(x))
+    pinned = _pinned_anchors()
     for x in nodes:
-        if x[0] in ("call", "inl"):
+        if x[0] == "call":
             calls.add(x[1])
+        elif x[0] == "inl":
+            # an inlined helper is transparent (its body is on the chain); it is only named when it
+            # is one of the functions known at the reviewed commit, so that roles can be recognised
+            if x[1] in pinned:
+                calls.add(x[1])
         elif x[0] == "method":
             methods.add(x[1])
         elif x[0] == "callv":
@@ -211,25 +217,46 @@ def regex_const(ctx, qual):
 # ----------------------------------------------------------------------
 # shared small rules added after the second round of seeded variants
 # ----------------------------------------------------------------------
+QSL_CELLS = (
+    # query, items.  Item shapes: bare key / key=value / several '=' / empty item / empty key / empty value
+    ("a=1&b", [("a", "1"), ("b", None)]),
+    ("token=YWJjZA==&next=home", [("token", "YWJjZA=="), ("next", "home")]),
+    ("a&&b=", [("a", None), ("", None), ("b", "")]),
+    ("=v&k=", [("", "v"), ("k", "")]),
+    ("&", [("", None), ("", None)]),
+    ("a=1&a=1", [("a", "1"), ("a", "1")]),
+    ("k=v=w&x", [("k", "v=w"), ("x", None)]),
+)
+
+
 def rule_qsl(ctx, rule):
     """query items are cut at '&' and each item at its FIRST '=' (writer joins with the same two separators)."""
-    ctx.rule(rule, "query item splitting: safe_qsl_iter cuts the query at '&' and each item at its first '=' only (split('=', 1) / partition), never from the right; safe_serialize_qsl joins with '&' and '='")
+    ctx.rule(rule, "query item splitting: safe_qsl_iter, interpreted on the item-shape classes {bare key, key=value, several '=', empty item, empty key, empty value, repeated item}, yields one (key, value-or-None) pair per '&'-separated item, cut at the FIRST '='; safe_serialize_qsl of that list is the query again (no item is dropped, merged or re-spelled)")
     repo = ctx.repo
     ut = repo.mod("utils")
-    it = ut.func("safe_qsl_iter").node
-    ctx.fn("ural.utils.safe_qsl_iter", "ural.utils.safe_serialize_qsl")
-    calls = [c for c in ast.walk(it) if isinstance(c, ast.Call) and isinstance(c.func, ast.Attribute) and c.func.attr in ("split", "rsplit", "partition", "rpartition") and c.args and isinstance(c.args[0], ast.Constant)]
-    amp = [c for c in calls if c.args[0].value == "&"]
-    eq = [c for c in calls if c.args[0].value == "="]
-    ctx.ob(rule, "safe_qsl_iter/items-cut-at-ampersand", len(amp) == 1 and amp[0].func.attr == "split" and len(amp[0].args) == 1, "safe_qsl_iter does not cut the query at every '&'", ut.site(it))
-    ctx.ob(rule, "safe_qsl_iter/item-cut-at-first-equals", bool(eq) and all((c.func.attr == "split" and len(c.args) == 2 and isinstance(c.args[1], ast.Constant) and c.args[1].value == 1) or c.func.attr == "partition" for c in eq),
-           "safe_qsl_iter cuts an item with `%s`: the key/value boundary must be the FIRST '=' ('token=YWJjZA==' has the key 'token')" % (unparse(eq[0]) if eq else "?"), ut.site(it), witness="?token=YWJjZA==&next=home")
-    ser = ut.func("safe_serialize_query_item").node
-    consts = [n.value for n in ast.walk(ser) if isinstance(n, ast.Constant) and isinstance(n.value, str)]
-    ctx.ob(rule, "safe_serialize_query_item/key=value", "%s=%s" in consts or "=" in consts, "safe_serialize_query_item does not join key and value with '='", ut.site(ser))
-    ser2 = ut.func("safe_serialize_qsl").node
-    consts = [n.value for n in ast.walk(ser2) if isinstance(n, ast.Constant) and isinstance(n.value, str)]
-    ctx.ob(rule, "safe_serialize_qsl/joined-with-ampersand", "&" in consts, "safe_serialize_qsl does not join the items with '&'", ut.site(ser2))
+    it = ut.func("safe_qsl_iter")
+    ser = ut.func("safe_serialize_qsl")
+    ctx.fn("ural.utils.safe_qsl_iter", "ural.utils.safe_serialize_qsl", "ural.utils.safe_serialize_query_item")
+    n = 0
+    for query, exp in QSL_CELLS:
+        n += 1
+        try:
+            got = [tuple(x) for x in run_function(repo, it, [query])]
+        except Unknown as e:
+            ctx.undecided(rule, "safe_qsl_iter(%r): %s" % (query, e))
+            continue
+        ctx.ob(rule, "safe_qsl_iter/%s" % query, got == exp,
+               "safe_qsl_iter(%r) yields %r, expected %r (one item per '&', key/value boundary at the FIRST '=': 'token=YWJjZA==' has the key 'token')" % (query, got, exp),
+               ut.site(it.node), witness="?" + query, sample="%r -> %r" % (query, got))
+        try:
+            back = run_function(repo, ser, [exp])
+        except Unknown as e:
+            ctx.undecided(rule, "safe_serialize_qsl(%r): %s" % (exp, e))
+            continue
+        ctx.ob(rule, "safe_serialize_qsl/%s" % query, back == query,
+               "safe_serialize_qsl(%r) gives %r, expected %r ('&' between items, '=' before a value that is not None)" % (exp, back, query),
+               ut.site(ser.node), witness="?" + query, sample="%r -> %r" % (exp, back))
+    ctx.require_instances(rule, n, 7, "item-shape cells")
 
 
 def rule_safe_urlsplit(ctx, rule):
@@ -238,25 +265,45 @@ def rule_safe_urlsplit(ctx, rule):
     ut = repo.mod("utils")
     sref = ut.func("safe_urlsplit")
     ctx.fn(sref.qualname)
+    site = ut.site(sref.node)
     ex = P.Extractor(repo, atomic=set())
-    rets = [r for r in ex.function(sref) if r.kind == "return"]
-    parses = [r for r in rets if r.term[0] == "call" and r.term[1] == "urllib.parse.urlsplit"]
-    ctx.ob(rule, "safe_urlsplit/ends-in-standard-parser", len(parses) >= 1, "safe_urlsplit does not end in the standard parser", ut.site(sref.node))
+    t = ex.result_term(ex.function(sref))
     url = ("param", "url")
-    for r in parses:
-        arg = r.term[2][0]
-        ok = False
-        if arg[0] == "phi":
-            # normal form: phi(PROTOCOL_RE.match(url) ? url : scheme + '://' + url)
-            c = arg[1]
-            exact = c == ("call", "ural.patterns.PROTOCOL_RE.match", (url,), ())
-            prefixed = arg[3][0] == "binop" and arg[3][1] == "Add" and arg[3][3] == url and arg[2] == url
-            ok = exact and prefixed
-        ctx.ob(rule, "safe_urlsplit/scheme-added-iff-PROTOCOL_RE-does-not-match", ok,
-               "safe_urlsplit decides whether to keep the url as it is with `%s`, not with `PROTOCOL_RE.match(url)` alone: a scheme-less url that merely contains '://' or '//' further on loses its host ('l.facebook.com/l.php?u=http://lemonde.fr')" % (P.show(arg[1], maxdepth=4) if arg[0] == "phi" else P.show(arg, maxdepth=3)),
-               ut.site(sref.node), witness="bit.ly/1sNZMwL?next=https://twitter.com/x")
-    pre = [r for r in rets if r.term == url]
-    ctx.ob(rule, "safe_urlsplit/pre-parsed-returned-as-is", any(any(c[0] == "call" and c[1] == "builtins.isinstance" for c, pol in r.conds if pol) for r in pre), "safe_urlsplit does not return an already parsed url unchanged", ut.site(sref.node))
+    PROTO = "ural.patterns.PROTOCOL_RE"
+
+    def is_M(c):
+        op = F.regex_op(c)
+        return op is not None and op[0] == PROTO and op[1] == "match" and op[2] == (url,)
+
+    def is_I(c):
+        return c[0] == "call" and c[1] == "builtins.isinstance" and len(c[2]) == 2 and c[2][0] == url
+
+    atoms = F.atomic_conditions(t)
+    foreign = [c for c in atoms if not is_M(c) and not is_I(c)]
+    ctx.ob(rule, "safe_urlsplit/scheme-added-iff-PROTOCOL_RE-does-not-match", not foreign and any(is_M(c) for c in atoms),
+           "safe_urlsplit decides whether to keep the url as it is with `%s`, not with `PROTOCOL_RE.match(url)` alone: a scheme-less url that merely contains '://' or '//' further on loses its host ('l.facebook.com/l.php?u=http://lemonde.fr')" % ("`, `".join(P.show(c, maxdepth=4) for c in (foreign or atoms))),
+           site, witness="bit.ly/1sNZMwL?next=https://twitter.com/x")
+    ctx.ob(rule, "safe_urlsplit/pre-parsed-returned-as-is", any(is_I(c) for c in atoms) and F.resolve_under(t, lambda c: True if is_I(c) else None) == url,
+           "safe_urlsplit does not return an already parsed url unchanged", site)
+    if foreign:
+        return
+    for m, exp in ((True, "U"), (False, "s://U")):
+        arm = F.resolve_under(t, lambda c, m=m: m if is_M(c) else (False if is_I(c) else None))
+        ok = arm[0] == "call" and arm[1] == "urllib.parse.urlsplit" and len(arm[2]) == 1
+        got = None
+        if ok:
+            def leaf(x):
+                if x == url:
+                    return "U"
+                if x == ("param", "scheme"):
+                    return "s"
+                raise Unknown("leaf %s" % P.show(x, maxdepth=2))
+            try:
+                got = eval_term(arm[2][0], leaf)
+            except Unknown as e:
+                got = "?(%s)" % e
+        ctx.ob(rule, "safe_urlsplit/%s" % ("has-protocol" if m else "no-protocol"), ok and got == exp,
+               "safe_urlsplit parses %s when PROTOCOL_RE %s, expected urlsplit(%s)" % (got if ok else P.show(arm, maxdepth=3), "matches" if m else "does not match", "url" if m else "scheme + '://' + url"), site)
 
 
 def rule_special_hosts(ctx, rule):
